@@ -263,10 +263,22 @@ def phantom_rule(ctx, r):
     f = facts.fn(ML + "::run")
     eb = ExprBuilder(f)
     sc = f.calls_to(ML + "::sink_context")
-    emp = cond_switches(f, lambda e: is_call(e, "grep_matcher::Match::is_empty"), eb)
+    # by value: a pending match that is_empty() ⇒ sink_context is not reached (the test may be a guard, an if, or the
+    # predicate of Option::filter)
+    from ..flow import combinator_model as _cm, I, V
+
+    def inner(call, argv):
+        if call.path == "grep_matcher::Match::is_empty":
+            return I(1)
+        if call.path.endswith("Option::take"):
+            return V("Some", None)
+        return None
+    asks = any(c.path == "grep_matcher::Match::is_empty" for u_ in facts.with_closures(f.path) for c in u_.calls())
+    sx = Sccp(f, call_model=_cm(facts, inner)).run([(0, {})])
+    emp = asks and not any(c.bb in sx.exec_blocks for c in sc)
     if not sc:
         r.bad("run|phantom", "anchor-missing: MultiLine::run no longer delivers the context of the pending match", fn=f)
-    elif emp and not guarded(f, [c.bb for c in sc], emp, False):
+    elif emp:
         r.ok("run|phantom", "context of the pending range only when the range is not empty", fn=f)
     else:
         r.bad("run|phantom", "MultiLine::run delivers context for the pending range without asking whether it is empty: for a "
